@@ -388,6 +388,10 @@ func (j *judge) prog(q pairSpec) {
 			return
 		}
 		text = t
+	} else if j.p.Route == "json" {
+		text = ProgSource(j.p.Stmt, j.p.T, q.Text)
+		// the rejecting code is the cast of that statement kind, as on routes as / let / letget
+		j.at, j.sigRoute = fmt.Sprintf("%s of '%s'", j.p.Stmt, q.Text), j.p.Stmt
 	} else {
 		js, ok := vu.JSONText(q.V)
 		if !ok {
@@ -463,6 +467,10 @@ func (j *judge) prog(q pairSpec) {
 		ob.msg = first.(vu.Val).S
 	default:
 		j.fail("bad-continuation", "output", q, "execution did not continue sanely after the crossing: output %q", out)
+		return
+	}
+	if len(q.Alt) > 0 {
+		j.decideAny(q, ob)
 		return
 	}
 	j.decide(q, ob, true)
